@@ -39,6 +39,10 @@ type c07Case struct {
 	Name  string  `json:"name"`
 	Steps []c07Op `json:"steps"`
 	Size  int     `json:"size"` // payload size of Write calls
+	// exporter cases: number of earlier sessions run (and closed) on the same session stores, and whether the
+	// keying material is exported from a ConnectionState snapshot after the connection was closed
+	History       int  `json:"history"`
+	SnapshotClose bool `json:"snapshotClose"`
 }
 
 type c07Result struct {
@@ -423,7 +427,22 @@ type c07ExpResult struct {
 
 func runC07Exporter(idx int, cs *c07Case) c07ExpResult { //nolint:cyclop,gocognit
 	res := c07ExpResult{Case: idx, Name: cs.Name}
-	sess, err := openSession(&cs.Scen, nil)
+	stores := &scenStores{}
+	for h := 0; h < cs.History; h++ {
+		prev, err := openSession(&cs.Scen, stores)
+		if err != nil {
+			res.Lab = "earlier session: " + err.Error()
+
+			return res
+		}
+		prev.lossless()
+		_, _ = prev.r.c.conn.Write([]byte("c07-history"))
+		time.Sleep(time.Millisecond)
+		_ = prev.r.c.conn.Close()
+		_ = prev.r.s.conn.Close()
+		prev.close()
+	}
+	sess, err := openSession(&cs.Scen, stores)
 	if err != nil {
 		res.Lab = err.Error()
 
@@ -439,6 +458,9 @@ func runC07Exporter(idx int, cs *c07Case) c07ExpResult { //nolint:cyclop,gocogni
 			return res
 		}
 		common := commonOf(p.conn)
+		if cs.SnapshotClose {
+			_ = p.conn.Close()
+		}
 		lr, rr := common.LocalRandom.MarshalFixed(), common.RemoteRandom.MarshalFixed()
 		cr, sr := lr[:], rr[:]
 		if !common.IsClient {
